@@ -138,8 +138,12 @@ def gen_case(seed):
         if i + 1 >= len(opts) or not (opts[i + 1].startswith("!") or opts[i + 1].endswith(".log")):
             del opts[i]
             tail = ["-E"]
-    sc = dict(argv=opts + [n + ".asm" for n in names] + tail, cwd="/w", disk=disk, env={"LANG": "C"}, want_events=1,
-              max_events=1400000, unbuf_out=1)
+    outopt = []
+    if nsrc == 1 and rng.chance(0.25):
+        # the code file under a name of the user's choosing: with and without extension, in a sub-directory, absolute
+        outopt = ["-o", rng.choice(["out", "out.p", "sub/out", "sub/out.bin", "./out", "/w/sub/o2", "sub.d/out", "o.u.t"])]
+    sc = dict(argv=opts + [n + ".asm" for n in names] + tail + outopt, cwd="/w", dirs=["/w", "/w/sub", "/w/sub.d"], disk=disk, env={"LANG": "C"},
+              want_events=1, max_events=1400000, unbuf_out=1)
     if "err.log" in opts or tail:
         sc["stdio_buf"] = 1
     if big:
@@ -252,8 +256,19 @@ def judge(sc, names, r, san):
     if not fatal_seen and total_err > 0 and code != 2:
         out.append(("C02/errors-but-exit%d" % code, "%d errors reported, exit %d" % (total_err, code)))
     # (b)/(c)/(e) code files
+    cpath = {n: "/w/%s.p" % n for n in names}
+    if "-o" in argv and len(names) == 1:
+        o = argv[argv.index("-o") + 1]
+        cpath[names[0]] = o if o.startswith("/") else "/w/" + (o[2:] if o.startswith("./") else o)
+    if total_err > 0 or fatal_seen:
+        # whatever its name: nothing that looks like a code file may be left for a source with errors
+        ok_paths = {cpath[n] for n in names if per_file.get(n, [0, 0, False])[0] == 0 and not per_file.get(n, [0, 0, False])[2]}
+        for k, v in sorted(r.files.items()):
+            if v and v[:2] == b"\x89\x14" and k not in ok_paths and not lst_stdout:
+                out.append(("C02/code-file-left-after-errors", "%s holds a code file (%d bytes) after a run with %d error(s), fatal=%s" % (k, len(v), total_err, fatal_seen)))
+                break
     for n in names:
-        p = r.files.get("/w/%s.p" % n)
+        p = r.files.get(cpath[n])
         d = per_file.get(n, [0, 0, False])
         if d[0] > 0 and p is not None:
             out.append(("C02/code-file-left-after-errors", "%s.p exists (%d bytes) although %d error(s) were reported for it"
